@@ -358,7 +358,54 @@ fn replay_chunk(cases: &[Value], rep: &mut Report) {
   }
 }
 
+/// The size classes of the table stop at 256 KiB; lists of 1 MiB and more are exercised once per run: every size keeps its
+/// length and its entries across the encoded form, also the entries at the far end.
+fn large_list_laws(rep: &mut Report) {
+  for entries in [1usize << 23, (1 << 23) + 8, 10_000_000, (1 << 24) + 3] {
+    let ctx = json!({"law": "large list survives its encoded form", "entries": entries});
+    rep.eval();
+    let r = guarded(|| -> Result<(), String> {
+      let mut l = StatusList2021::new(entries).map_err(|e| format!("new: {e}"))?;
+      let n = l.len();
+      if n < entries {
+        return Err(format!("len {n} < requested {entries}"));
+      }
+      let marks = [0usize, 7, n / 2, (1 << 23) - 1, 1 << 23, n - 9, n - 1];
+      for m in marks.iter().filter(|m| **m < n) {
+        l.set(*m, true).map_err(|e| format!("set {m}: {e}"))?;
+      }
+      let enc = l.clone().into_encoded_str();
+      let raw = my_decode(&enc)?;
+      if raw.len() * 8 != n {
+        return Err(format!("encoded form holds {} bits, the list has {n}", raw.len() * 8));
+      }
+      let back = StatusList2021::try_from_encoded_str(&enc).map_err(|e| format!("decode: {e}"))?;
+      if back.len() != n {
+        return Err(format!("decoded list has {} entries, the encoded one had {n}", back.len()));
+      }
+      if back != l {
+        return Err("decoded list differs from the encoded one".into());
+      }
+      for m in marks.iter().filter(|m| **m < n) {
+        if back.get(*m) != Ok(true) {
+          return Err(format!("entry {m} lost"));
+        }
+        if *m + 1 < n && !marks.contains(&(*m + 1)) && back.get(*m + 1) != Ok(false) {
+          return Err(format!("entry {} set although never written", m + 1));
+        }
+      }
+      Ok(())
+    });
+    match r {
+      Err(p) => rep.mismatch("status_list/large/panic", &ctx, json!("no panic"), json!(p), "panic"),
+      Ok(Err(e)) => rep.mismatch("status_list/large", &ctx, json!("identical list"), json!(e), ""),
+      Ok(Ok(())) => {}
+    }
+  }
+}
+
 pub fn replay(cases: &[Value], rep: &mut Report) {
+  large_list_laws(rep);
   par_replay(cases, rep, replay_chunk);
 }
 
